@@ -533,11 +533,17 @@ async def proxy_sample(loop, ctx):
     cases = []
     try:
         s = rig.session("P")
+        # lines that mean something to the transport between the two processes when they come first on a connection
+        # (the POP3 marker) or during IDLE (DONE): in the middle of an IMAP session they are just bad commands
+        transport_words = ["POP3", "DONE", "POP3", "pop3", "POP3 x", "DONE DONE", "{4}", "+"]
         for i in range(ctx.get("proxy_n", 60)):
             sent = gen_sentence(rnd)
             text, kind = mutate(rnd, sent)
             if rnd.random() < 0.1:
                 text = "".join(chr(rnd.randrange(256)) for _ in range(rnd.randint(1, 40)))
+            if i < len(transport_words) * 2 and i % 2 == 1:
+                text = transport_words[i // 2]
+                cx["proxy_transport_words"] += 1
             ev = evaluate(text)
             if ev["accepted"] or ev.get("kind") == "non-badcommand-exception":
                 continue
